@@ -1,16 +1,15 @@
-SPECIFICATION Spec
+SPECIFICATION GenSpec
 CONSTANTS
   Coords = {0, 1, 2}
   Dims = 1
   PadLo = 0
   PadHi = 2
-  Mode = "chain"
-  Alg = "mut_orflag"
+  Mode = "gen_pairs"
+  Alg = "fixed"
   MaxDepth = 3
   LeafKind = "blobs"
   WithSemi = FALSE
   Radii = {2}
   Margin = 1
   ProbeOdd = FALSE
-INVARIANT StepsSound
 CHECK_DEADLOCK FALSE
